@@ -33,6 +33,7 @@ func signedRegionNames(v *signedView, signerCerts map[*node]bool) map[*node]stri
 	m[v.encap] = "encapContentInfo"
 	m[v.encap.children[0]] = "eContentType"
 	if v.eContent != nil {
+		m[v.encap.children[1]] = "eContent[0]"
 		m[v.eContent] = "eContent"
 	}
 	if v.certsNode != nil {
